@@ -127,6 +127,10 @@ func trunc(s string, n int) string {
 
 func (c *Ctx) Feature(name string) { c.res.Features[name]++ }
 
+// Event counts one more judged execution inside the current case (a case
+// may drive several API events, each with its own verdict).
+func (c *Ctx) Event() { c.res.Evaluations++ }
+
 func (c *Ctx) FeatureN(name string, n int) { c.res.Features[name] += n }
 
 // Seen records membership of item in a named set (e.g. reader transitions).
